@@ -75,6 +75,35 @@ def limit_predicates(prog, chk):
     floors = {"loop_limit": 2, "var_limit": 1, "depth_limit": 1}
     for f in LIMITS:
         chk.floor(f"A7.cmp.{f}", ncmp[f], floors[f], f"comparison against {f}")
+    # each limit bounds the quantity it is named for: the functions that *compare* against it are the reviewed ones
+    # (a well-formed `n > loop_limit -> LoopLimitError` on some other count rejects documents that are within their limits)
+    import re as _re
+
+    for f, allowed in LIMIT_SUBJECTS.items():
+        users = set()
+        for body in prog.bodies.values():
+            if body.unit != "svgdx-lib" or body.path in PLUMBING:
+                continue
+            if any(_owner_ok(prog, body, r, f) for r in R.place_reads(body, ("." + f,))):
+                if R.constructs_variant(body, body.reachable, ERR, LIMITS[f]):
+                    users.add(_re.sub(r"(::\{closure#\d+\})+", "", body.path))
+        extra = sorted(users - set(allowed))
+        chk.ob(not extra, "A7.limit-subject", f, "-", f"{f} is compared with {', '.join(allowed[k] for k in sorted(users & set(allowed)))}", f"{f} is also enforced in {[e.replace('svgdx::', '') for e in extra]}: a limit named for one quantity ({'; '.join(allowed.values())}) now bounds another, so a document within its limits can be rejected")
+
+
+LIMIT_SUBJECTS = {
+    "loop_limit": {
+        "<svgdx::loop_el::LoopElement as svgdx::transform::EventGen>::generate_events": "the iterations of a <loop>",
+        "<svgdx::loop_el::ForElement as svgdx::transform::EventGen>::generate_events": "the items of a <for>",
+    },
+    "var_limit": {
+        "<svgdx::transform::VarElement as svgdx::transform::EventGen>::generate_events": "the length of a <var> value",
+        "<svgdx::reuse::ReuseElement as svgdx::transform::EventGen>::generate_events": "the length of an attribute that becomes a variable of a reuse target",
+    },
+    "depth_limit": {
+        "svgdx::context::TransformerContext::inc_depth": "the nesting depth of element processing",
+    },
+}
 
 
 def _owner_ok(prog, body, read, field):
@@ -681,7 +710,9 @@ def scope_var_limit(prog, chk):
                     return True
                 lp = R.loop_containing(body, x)
                 return lp is not None and body.dominates(lp[0], bb) and bb not in lp[1]
-            reads = [x for (x, i, node) in R.place_reads(body, (".var_limit",)) if _guards(x)]
+            # ... and it tests the values *after* they were evaluated (an expansion is what can exceed the limit)
+            evals_of = [eb for (el, eb) in evald if el == l]
+            reads = [x for (x, i, node) in R.place_reads(body, (".var_limit",)) if _guards(x) and any(body.dominates(eb, x) for eb in evals_of)]
             errs = R.constructs_variant(body, body.reachable, "svgdx::errors::SvgdxError", "VarLimitError")
             chk.ob(bool(reads) and errs, "A7.scope-var-limit", key, body.where(bb, t.get("line")), "the evaluated attributes that become variables of the new scope are tested against var_limit first", f"{body.short} evaluates the element's attributes and makes them variables of a new scope without testing them against var_limit: a recursive <reuse> whose attribute mentions itself twice doubles the value at every level (memory exhaustion long before the depth limit)")
     chk.floor("A7.scope-var-limit", n, 2, "push_element call site")
@@ -703,7 +734,7 @@ def scope_var_limit(prog, chk):
             guards = []
             for (x, i, node) in R.place_reads(body, (".var_limit",)):
                 lp = R.loop_containing(body, x)
-                if lp is not None and _attrs_loop_element(body, lp[0]) == l:
+                if lp is not None and _attrs_loop_element(body, lp[0]) == l and body.dominates(eb, lp[0]):
                     guards.append(lp)
             name = body.local_name(l)
             for (b, t, c) in sinks:
